@@ -15,7 +15,7 @@ from typing import Dict, List, Optional, Set, Tuple
 
 from sa.facts import split_conj
 from sa.flow import Expander, subst
-from sa.model import Func, walk_no_nested, src
+from sa.model import Func, walk_no_nested, src, unmangle
 from sa.pat import same, attr_path
 
 
@@ -130,13 +130,157 @@ class FX:
                         self.locals.add(t.id)
         # names bound to an empty container and filled afterwards: never replaced by their (empty) initial value
         self.acc = {d.var for d in self.flow.defs if d.kind == 'assign' and d.value is not None and is_empty_container(d.value)}
+        self._rc = {}
 
     def x(self, e: ast.AST, keep=()) -> ast.AST:
         """e (a node of this function) with locals expanded, one-line helpers inlined, module constants substituted"""
         at = self.flow.node_of_expr(e)
         new = self.ex.expand(e, at, stop=set(self.acc) | set(keep)) if at is not None else copy.deepcopy(e)
         new = self._inline_nested(new)
+        new = self._fold_records(new)
         return resolve_consts(self.f.module, new, self.locals)
+
+    def _record_class(self, name: str):
+        """a small immutable accessor class of this module: no bases, `__init__` only stores parameters (`self.A = <param>`),
+        nothing else stores into self  ->  (ClassInfo, __init__ Func, {attribute: parameter}) else None"""
+        if name not in self._rc:
+            self._rc[name] = self._record_class_(name)
+        return self._rc[name]
+
+    def _record_class_(self, name: str):
+        try:
+            ci = self.prog.cls(name)
+        except Exception:
+            return None
+        if ci.module is not self.f.module or ci.node.bases or ci.node.keywords or ci.node.decorator_list or ci.getters or ci.setters:
+            return None
+        init = ci.methods.get('__init__')
+        if init is None or init.kind != 'method' or not init.params:
+            return None
+        a = init.node.args
+        if a.vararg or a.kwarg or a.kwonlyargs:
+            return None
+        me = init.params[0]
+        fields = {}
+        for st in init.node.body:
+            if isinstance(st, ast.Expr) and isinstance(st.value, ast.Constant):
+                continue
+            if isinstance(st, ast.AnnAssign) and st.value is not None:
+                tgt, val = st.target, st.value
+            elif isinstance(st, ast.Assign) and len(st.targets) == 1:
+                tgt, val = st.targets[0], st.value
+            else:
+                return None
+            if not (isinstance(tgt, ast.Attribute) and isinstance(tgt.value, ast.Name) and tgt.value.id == me and isinstance(val, ast.Name)
+                    and val.id in init.params[1:] and tgt.attr not in fields):
+                return None
+            fields[tgt.attr] = val.id
+        for m in ci.methods.values():
+            if m is init:
+                continue
+            if m.kind != 'method' or not m.params:
+                return None
+            for n in ast.walk(m.node):
+                if isinstance(n, ast.Attribute) and not isinstance(n.ctx, ast.Load) and isinstance(n.value, ast.Name) and n.value.id == m.params[0]:
+                    return None
+                if isinstance(n, ast.Call) and isinstance(n.func, ast.Name) and n.func.id in ('setattr', 'delattr', 'vars'):
+                    return None
+        # class level assignments (other than a docstring / __slots__) could shadow the instance fields
+        for st in ci.node.body:
+            if isinstance(st, (ast.FunctionDef, ast.Pass)) or (isinstance(st, ast.Expr) and isinstance(st.value, ast.Constant)):
+                continue
+            if isinstance(st, ast.Assign) and len(st.targets) == 1 and isinstance(st.targets[0], ast.Name) and st.targets[0].id == '__slots__':
+                continue
+            return None
+        return ci, init, fields
+
+    def _fold_records(self, e: ast.AST, depth: int = 0) -> ast.AST:
+        """`C(a, b)[K]`, `C(a, b).m(K)` and `C(a, b).field` for a small accessor class C of this module (see _record_class) whose
+        method is one `return <expr>`: replaced by that expression with self.<field> -> constructor argument, parameters ->
+        call arguments (a row wrapped into a `_Record(header, row)` object reads like row[header[K]] again)"""
+        if depth > 3 or not any(isinstance(n, ast.Call) and isinstance(n.func, ast.Name) and n.func.id not in self.locals
+                                and self._record_class(n.func.id) is not None for n in ast.walk(e)):
+            return e
+        outer = self
+
+        def ctor_of(n):
+            if isinstance(n, ast.Call) and isinstance(n.func, ast.Name) and n.func.id not in outer.locals:
+                rc = outer._record_class(n.func.id)
+                if rc is not None:
+                    b = bind_call(ast.Call(func=n.func, args=[ast.Name(id='<self>', ctx=ast.Load())] + list(n.args), keywords=n.keywords), rc[1])
+                    if b is not None:
+                        return rc[0], {fld: b[p_] for fld, p_ in rc[2].items()}
+            return None
+
+        def method_value(ci, fields, mname, args, keywords=()):
+            m = ci.methods.get(mname)
+            if m is None or m.kind != 'method':
+                return None
+            body = [st for st in m.node.body if not (isinstance(st, ast.Expr) and isinstance(st.value, ast.Constant))]
+            if len(body) != 1 or not isinstance(body[0], ast.Return) or body[0].value is None:
+                return None
+            b = bind_call(ast.Call(func=ast.Name(id=mname, ctx=ast.Load()), args=[ast.Name(id='<self>', ctx=ast.Load())] + list(args),
+                                   keywords=list(keywords)), m)
+            if b is None:
+                return None
+            me = m.params[0]
+            sub = {p_: v for p_, v in b.items() if p_ != me}
+            ok = [True]
+
+            class S(ast.NodeTransformer):
+                def visit_Attribute(self, n):
+                    if isinstance(n.value, ast.Name) and n.value.id == me:
+                        if n.attr in fields and isinstance(n.ctx, ast.Load):
+                            return copy.deepcopy(fields[n.attr])
+                        ok[0] = False
+                        return n
+                    self.generic_visit(n)
+                    return n
+
+                def visit_Name(self, n):
+                    if n.id == me:
+                        ok[0] = False
+                    elif n.id in sub and isinstance(n.ctx, ast.Load):
+                        return copy.deepcopy(sub[n.id])
+                    return n
+
+                def visit_Lambda(self, n):
+                    ok[0] = False
+                    return n
+            # comprehension variables of the method body must not capture argument names
+            bound = {t.id for c in ast.walk(body[0].value) if isinstance(c, ast.comprehension) for t in ast.walk(c.target) if isinstance(t, ast.Name)}
+            if bound & (set(sub) | {x.id for v in list(sub.values()) + list(fields.values()) for x in ast.walk(v) if isinstance(x, ast.Name)}):
+                return None
+            out = S().visit(copy.deepcopy(body[0].value))
+            return ast.fix_missing_locations(out) if ok[0] else None
+
+        class T(ast.NodeTransformer):
+            def visit_Subscript(self, n):
+                self.generic_visit(n)
+                c = ctor_of(n.value) if isinstance(n.ctx, ast.Load) else None
+                if c is not None and not isinstance(n.slice, ast.Slice):
+                    v = method_value(c[0], c[1], '__getitem__', [n.slice])
+                    if v is not None:
+                        return outer._fold_records(v, depth + 1)
+                return n
+
+            def visit_Call(self, n):
+                self.generic_visit(n)
+                if isinstance(n.func, ast.Attribute):
+                    c = ctor_of(n.func.value)
+                    if c is not None and not any(isinstance(a, ast.Starred) for a in n.args) and all(k.arg for k in n.keywords):
+                        v = method_value(c[0], c[1], unmangle(n.func.attr) if n.func.attr not in c[0].methods else n.func.attr, n.args, n.keywords)
+                        if v is not None:
+                            return outer._fold_records(v, depth + 1)
+                return n
+
+            def visit_Attribute(self, n):
+                self.generic_visit(n)
+                c = ctor_of(n.value) if isinstance(n.ctx, ast.Load) else None
+                if c is not None and n.attr in c[1]:
+                    return copy.deepcopy(c[1][n.attr])
+                return n
+        return T().visit(e)
 
     def _inline_nested(self, e: ast.AST, depth: int = 0) -> ast.AST:
         """calls of one-expression functions defined inside this function (closures over its locals, e.g. a local
@@ -735,6 +879,30 @@ def once_value(fx: 'FX', name: str, loop: ast.For, use: ast.AST, keep=()):
     return fx.x(d.value, keep=keep), d.stmt
 
 
+def _peel_selection(it: ast.AST, tname: str):
+    """`[k for k in X if C]` / list(..) / tuple(..) of one (a pure selection: the element is the loop variable)
+    ->  (X, [(atom of C with k renamed to tname, True) ..]); anything else -> None"""
+    extra = []
+    peeled = False
+    for _ in range(4):
+        if isinstance(it, ast.Call) and isinstance(it.func, ast.Name) and it.func.id in ('list', 'tuple') and len(it.args) == 1 and not it.keywords:
+            it = it.args[0]
+            continue
+        if isinstance(it, (ast.ListComp, ast.GeneratorExp)) and len(it.generators) == 1 and not it.generators[0].is_async \
+                and isinstance(it.generators[0].target, ast.Name) and isinstance(it.elt, ast.Name) and it.elt.id == it.generators[0].target.id:
+            g = it.generators[0]
+            ren = {g.target.id: ast.Name(id=tname, ctx=ast.Load())}
+            if g.target.id != tname and any(isinstance(n, ast.Name) and n.id == tname for c_ in g.ifs for n in ast.walk(c_)):
+                return None
+            for c_ in g.ifs:
+                extra += split_conj(subst(c_, ren), True)
+            it = g.iter
+            peeled = True
+            continue
+        break
+    return (it, extra) if peeled else None
+
+
 def generic_copies(ctx, func: Func) -> List[GenericCopy]:
     """`for k in SRC.__dict__[.keys()|.items()]: [if ..:] DST.__setattr__(k, SRC.__getattribute__(k))`"""
     fx = fx_of(ctx, func)
@@ -753,7 +921,23 @@ def generic_copies(ctx, func: Func) -> List[GenericCopy]:
             names = [tg.id] if isinstance(tg, ast.Name) else [e.id for e in getattr(tg, 'elts', []) if isinstance(e, ast.Name)]
             if k.id not in names or names[0] != k.id:
                 continue
-            owner = keys_owner(fx.x(fo.iter))
+            itx = fx.x(fo.iter)
+            owner = keys_owner(itx)
+            sel = []
+            if owner is None:
+                # the names may be selected up front: `names = [k for k in SRC.__dict__ if C]; for name in names: DST.__setattr__(name, ..)`
+                # - read as the loop over SRC.__dict__ under C (keys are unique, so selecting before the first copy selects the same names);
+                # the list must be computed in the same pass of the enclosing loops as the copy loop
+                dkeep = [dst.id] if isinstance(dst, ast.Name) else []
+                itk = fx.x(fo.iter, keep=dkeep)
+                hoisted_ok = True
+                if isinstance(fo.iter, ast.Name):
+                    dv = fx.def_value(fo.iter.id, fo.iter)
+                    hoisted_ok = dv is not None and fx.enclosing_fors(dv) == [l for l in fx.enclosing_fors(c) if l is not fo]
+                peeled = _peel_selection(itk, names[0]) if hoisted_ok and len(names) == 1 else None
+                if peeled is not None:
+                    itx, sel = peeled
+                    owner = keys_owner(itx)
             if owner is None:
                 continue
             # value must be the source object's attribute of the same key (or the items() value variable)
@@ -789,7 +973,7 @@ def generic_copies(ctx, func: Func) -> List[GenericCopy]:
                 ok = True
             if ok:
                 keep = [n.id for n in (dst, owner) if isinstance(n, ast.Name)]
-                gc = GenericCopy(c, dst, owner, k.id, fx.conds(c, keep=keep), fo)
+                gc = GenericCopy(c, dst, owner, k.id, fx.conds(c, keep=keep) + sel, fo)
                 gc.wrap = wrap
                 _resolve_once_names(fx, gc, keep)
                 out.append(gc)
